@@ -78,7 +78,9 @@ def definite_difference(f, g, vocab, limit=16):
     """(verdict, info): verdict in 'same' | 'different' | 'undecided'"""
     Af, Ag = guards.atoms_of(f), guards.atoms_of(g)
     allA = sorted(Af | Ag)
-    opq = {a for a in allA if opaque(a, vocab)}
+    # an opaque atom that occurs on both sides is the same (uninterpreted) condition on both sides: an ordinary
+    # atom. Only opaque atoms private to one side can be another spelling of something on the other side.
+    opq = {a for a in allA if opaque(a, vocab) and not (a in Af and a in Ag)}
     clear = [a for a in allA if a not in opq]
     if len(clear) > limit:
         # keep the atoms that differ plus as many shared ones as fit; the rest become unknown
